@@ -482,6 +482,12 @@ func (ex *Exec) addr(st *State, v ssa.Value) Loc {
 	if g, ok := v.(*ssa.Global); ok {
 		return LocGlobal{g}
 	}
+	if fv, ok := v.(*ssa.FreeVar); ok {
+		if _, isPtr := fv.Type().(*types.Pointer); isPtr {
+			ex.vc.assumed["captured variable "+fv.Name()+" is not reassigned while the closure runs"] = true
+			return LocCaptured{fv}
+		}
+	}
 	// a Ref term
 	ref := ex.val(st, v)
 	pt, ok := v.Type().Underlying().(*types.Pointer)
